@@ -865,3 +865,23 @@ pub fn drive_c12(seed: u64, thorough: bool, out: &mut dyn Write) -> usize {
     }
     e.id
 }
+
+/// Re-run one recorded operator application against the current tree (replay).
+pub fn replay_op(j: &J) -> Option<J> {
+    let op = j["op"].as_str()?;
+    let form = j["form"].as_str().unwrap_or("var");
+    let a = enc::unvalue(&j["a"])?;
+    let b = enc::unvalue(&j["b"]).unwrap_or(Value::Null);
+    let src = j["src"].as_str().unwrap_or("");
+    let out = if form == "host" {
+        host_apply(op, &a, &b)
+    } else if form == "lit" {
+        prog_apply(src, &[])
+    } else {
+        prog_apply(src, &[("a".to_string(), a.clone()), ("b".to_string(), b.clone()), ("m".to_string(), a.clone()), ("k".to_string(), b.clone()),
+                          ("l".to_string(), a.clone()), ("i".to_string(), b.clone()), ("x".to_string(), a.clone())])
+    };
+    let mut r = j.clone();
+    r["out"] = out;
+    Some(r)
+}
